@@ -140,6 +140,7 @@ type Frame struct {
 	curLoop        []*loopInfo
 	siteOrd        map[string]map[ssa.Instruction]int
 	lastCallResult *Val
+	pendingRet     []Val // values about to be returned (visible at "return" anchors)
 	beforeArgs     map[string]TV
 }
 
